@@ -33,6 +33,7 @@ structure Glob where
   hwid     : List Nat := []
   icon     : Option (List Nat) := none      -- none: the getter fails
   fname    : Option (List Nat) := none
+  emptyBlock : Bool := false               -- how an EMPTY icon is handed over: as a zero-length block (non-NULL) instead of NULL
 deriving Repr, DecidableEq
 
 /-- what the per-interface getters answer -/
@@ -319,7 +320,8 @@ def qltlvIcon (c : Cfg) (g : Glob) (w : World) (st : St) (img : List Nat) (offse
     | none =>
       match g.icon with
       | some (b :: bs) => (w.rawAlloc (b :: bs).length, { st with icon := some (b :: bs) })
-      | _ => (w, st)
+      | some [] => if g.emptyBlock then (w.rawAlloc 0, { st with icon := some [] }) else (w, st)    -- `!small_icon && size == 0`: a non-NULL empty block is kept (and released by the Reset), not asked for again
+      | none => (w, st)
   sendLargeTlvResponse c w st img st.icon offset
 
 /-- friendly name: fetched per call, released after the response -/
